@@ -16,9 +16,12 @@
     * `view_load_exact`        loading into a view of equal extents stores the k-th loaded value in the k-th element and
                                leaves every address outside the view's image unchanged
     * `view_load_touches_only_view`  the frame part for every well-formed view, without assuming distinct element locations
+    * `reachable_view_load_exact`, `reachable_view_roundtrip`   the same for every view reachable from an array (C01's
+                               `Reach`): well-formedness and distinct locations are discharged by C01 / `reachable_injective`
 -/
 import MultiProofs.SerArchive
 import MultiProofs.SerWalk
+import MultiProofs.SerInj
 
 namespace Multi
 namespace C17
@@ -273,6 +276,37 @@ theorem view_roundtrip (c : Codec τ α) (hc : c.Lawful) (kw kv : ViewKind) (w v
   refine ⟨_, m', hsave, h1, h2, ?_⟩
   rw [← hext] at h3
   exact (allRel_map c.eqv _ _ _).mp h3
+
+/-! ### views reachable from an array: the distinct-locations hypothesis is discharged by C01 -/
+
+/-- `view_load_exact` for every view obtained from an array by any finite sequence of in-domain view operations
+    (C01's `Reach`): well-formedness and pairwise distinct element locations follow from `C01.reachable_denotes` and
+    `reachable_injective`, so no hypothesis about the view remains. -/
+theorem reachable_view_load_exact (c : Codec τ α) (hc : c.Lawful) (k : ViewKind)
+    (base : Int) (es : List Ext) (hes : ∀ e ∈ es, e.first ≤ e.last) (v : View) (den : Den)
+    (hreach : Reach ⟨base, Layout.ofExts es⟩ v den) (m : Mem α)
+    (xs : List α) (hlen : xs.length = (boxIndices v.exts).length)
+    (hm : ∀ p ∈ canonAddrs v, c.ok (m p)) (hx : ∀ x ∈ xs, c.ok x) (rest : List τ) :
+    ∃ m', v.load c k m (encItems c xs ++ rest) = some (m', rest) ∧
+      (∀ p, p ∉ canonAddrs v → m' p = m p) ∧
+      AllRel c.eqv ((boxIndices v.exts).map fun idx => m' (v.addr idx)) xs :=
+  view_load_exact c hc k v (reachable_wf base es hes v den hreach) m xs hlen
+    (reachable_canonAddrs_nodup base es hes v den hreach) hm hx rest
+
+/-- `view_roundtrip` for reachable views: `w` (any well-formed view) saved, loaded into a reachable view `v` of equal
+    extents: `v[idx] == w[idx]` everywhere, nothing else touched. -/
+theorem reachable_view_roundtrip (c : Codec τ α) (hc : c.Lawful) (kw kv : ViewKind)
+    (bw : Int) (esw : List Ext) (hesw : ∀ e ∈ esw, e.first ≤ e.last) (w : View) (denw : Den)
+    (hrw : Reach ⟨bw, Layout.ofExts esw⟩ w denw)
+    (bv : Int) (esv : List Ext) (hesv : ∀ e ∈ esv, e.first ≤ e.last) (v : View) (denv : Den)
+    (hrv : Reach ⟨bv, Layout.ofExts esv⟩ v denv)
+    (hext : v.exts = w.exts) (mw m : Mem α)
+    (hm : ∀ p ∈ canonAddrs v, c.ok (m p)) (hmw : ∀ p ∈ canonAddrs w, c.ok (mw p)) (rest : List τ) :
+    ∃ toks m', w.save c kw mw = some toks ∧ v.load c kv m (toks ++ rest) = some (m', rest) ∧
+      (∀ p, p ∉ canonAddrs v → m' p = m p) ∧
+      ∀ idx ∈ boxIndices v.exts, c.eqv (m' (v.addr idx)) (mw (w.addr idx)) :=
+  view_roundtrip c hc kw kv w v (reachable_wf bw esw hesw w denw hrw) (reachable_wf bv esv hesv v denv hrv) hext mw m
+    (reachable_canonAddrs_nodup bv esv hesv v denv hrv) hm hmw rest
 
 /-! ### non-vacuity -/
 
